@@ -682,6 +682,10 @@ func (g Gateway) GetByIndexStream(in *hydrapb.GetByIndexStreamRequest, stream hy
 		sortCandidates(candidates, beaconType, order)
 		treasures = applyFromLimit(candidates, in.GetFrom(), in.GetLimit())
 		residualFilters = plan.Residual
+		if hasAnyLabels(filters) {
+			// MatchedLabels must include the indexed leg: evaluate the whole filter on the candidates
+			residualFilters = filters
+		}
 	} else {
 		// Bypass: legacy beacon walk, full per-row predicate.
 		var err error
@@ -819,6 +823,9 @@ func (g Gateway) GetByIndexStreamFromMany(in *hydrapb.GetByIndexStreamFromManyRe
 				sortCandidates(candidates, beaconType, order)
 				treasures = applyFromLimit(candidates, query.GetFrom(), query.GetLimit())
 				residualFilters = plan.Residual
+				if hasAnyLabels(filters) {
+					residualFilters = filters
+				}
 			} else {
 				treasures, err = swampInterface.GetTreasuresByBeacon(
 					beaconType, order,
